@@ -7,7 +7,6 @@ NA = {
  "C10": "Liveness under connection failure across try_join of reader/writer/orphaner/keepaliver tasks, sockets and timers; schedules and crash points of an I/O event loop are not encodable for a bounded model checker of sequential code.",
  "C12": "End-to-end composition through Session::execute, metadata fetch, pools and sockets; every link is async/IO; the pure pieces are decided under C03/C04/C11/C15.",
  "C13": "speculative_execution::execute is futures::select! over FuturesUnordered and tokio::time::sleep; needs a runtime and timer wheel; the only synchronous piece (can_be_ignored) decides none of the stated clauses on its own.",
- "C14": "Re-prepare / metadata-id logic lives inside async Connection::{execute_raw_with_consistency, batch, reprepare} around network round-trips and ArcSwap state; not symbolically executable with Kani or a MIR->SMT encoder.",
  "C19": "tokio::sync::Notify + async recv state machine: a fixed 3-step poll/modify/poll scenario exhausted 14 GB in CBMC (probe); symbolic schedules are out of reach and Kani has no thread interleavings.",
 }
 
@@ -28,9 +27,9 @@ CLAIMED = {
          "Lengths: quick {0,1,7,8,9,15,16,17,31,32,33}, thorough 0..48 and 63..65, 70. Key shapes beyond 5 components / 6 markers, component length profiles other than the listed ones, null key components and the choice of partitioner from table metadata are outside. Iterator adaptors (map is lazy, closures run from their MIR), Vec/SmallVec, sort_unstable_by_key (= any key-ordered permutation) and byteorder reads are library models. Trusted: mir2smt translator + library models.",
          S),
  "C04": ("DESIGN.md §5 C04",
-         "Kernel only: TokenRing<T> walk (new/sort, ring_range_full, ring_range, get_elem_for_token) for rings of 0..4 (thorough 5) members with fully symbolic tokens and query: starts at the first member clockwise from the token, visits each member once, wraps once.",
-         "Replica-set computation proper (SimpleStrategy / NetworkTopologyStrategy, precomputed vs on-the-fly, DC restriction, ReplicaSet views) goes through HashMap/HashSet/itertools::unique over Arc<Node> and is NOT decided (CBMC cannot execute HashMap insertion here).",
-         K),
+         "Kernels, composable: (K) TokenRing<T> walk (new/sort, ring_range_full, ring_range, get_elem_for_token) for rings of 0..4 (thorough 5) members with fully symbolic tokens and query: starts at the first member clockwise from the token, visits each member once, wraps once. (S) NetworkTopologyStrategy selection along that walk: ReplicationInfo::nts_replicas_in_datacenter + NtsReplicasInDatacenterIterator::next drained to the end for a datacenter of n <= 4 (thorough 6) distinct nodes with SYMBOLIC racks (rack-less included) and every RF 0..n+2 equal the servers' rule (new rack, or a repeat while RF - rack count repeats remain, until min(RF, n) found); the prefix property that justifies the compressed pre-computed ring; DatacenterPrecomputedReplicas::get_replica_ring_for_rf hands out the compressed ring iff its maximum RF covers the request, otherwise the ring stored under exactly the requested RF.",
+         "NOT decided: SimpleStrategy (walk + unique + take are library code), PrecomputedReplicas::compute, ReplicaLocator's HashMap plumbing and its precomputed/on-the-fly switch, DC restriction, ReplicaSet views; vnodes / duplicate ring entries in the NTS check (Itertools::unique modelled as identity); more than 4 rack values. (CBMC cannot execute HashMap insertion here.)",
+         K + " + " + S),
  "C06": ("DESIGN.md §5 C06",
          "Policy-decision half, decided inductively: one decide_should_retry step of Default / DowngradingConsistency / Fallthrough from an ARBITRARY session state, every RequestAttemptError and DbError variant with all scalar fields symbolic: non-idempotent requests are re-sent only after unavailable/bootstrapping/no-stream-id/read-timeout, never after broken connection/overloaded/server/truncate/write-timeout; Default never retries at serial consistency; same-target retries consume one-shot flags (bound 2 / 1 / 0); reset clears the flags.",
          "The executor honouring the decisions (async run_request_speculative_fiber, pager, speculative execution) is NOT decided. Trusted: mir2smt translator, models of derived PartialEq / reference comparisons / tracing-disabled, enum variant order parsed from source.",
@@ -47,6 +46,10 @@ CLAIMED = {
          "shard_of == ScyllaDB's formula and < nr_shards for ALL tokens x shard counts 1..=65535 x msb 0..=63; lowest-port rule for ALL valid port ranges and shard counts (Some = lowest congruent port in range, None iff none exists); ShardInfo::new rejects iff shard >= nr_shards; draw_source_port_for_shard_from_range and iter_source_ports_for_shard_from_range decided for ALL ranges/shard counts with the RNG draw a symbolic value and the iterator chain given abstract sequence semantics (every yielded port is in range and congruent, every such port is yielded once, none when there is none); Kani cross-check of the same glue on small windows.",
          "INT encoding (explicit mod 2^k) for the arithmetic; translator validated every run against native execution on seeded inputs. Lemma L1 ((x + y*m) mod m == x mod m) is an ASSUMPTION of the glue obligations (no installed solver discharges it in INT or 34-bit BV within the cap; listed in the obligation's assumes). msb_ignore >= 64 and SUPPORTED-options parsing (HashMap) outside.",
          S + " + " + K),
+ "C14": ("DESIGN.md §5 C14",
+         "Decision kernels only: Connection::calculate_cached_metadata_params and Connection::handle_result_metadata_new_id (pure functions inside the asynchronous execute path), for every combination of negotiated metadata-id extension, statement setting, cached metadata with any column count and with or without an id: the response's metadata may be omitted only when cached metadata with at least one column exists and then exactly that metadata is handed to the row decoder; a result-metadata id goes into EXECUTE iff the extension was negotiated, and it is the id of the metadata that will decode the rows (empty when there is none or when fresh metadata is requested); after a ROWS response the statement's current metadata is replaced - by exactly the response's metadata - iff that carries an id that differs from the current one, or equals it while the current metadata has no columns and the response's has some.",
+         "Everything else of C14 is asynchronous connection code and NOT decided: reacting to UNPREPARED, re-preparing on the same node, comparing the re-prepared id, repeating the request with the same values, batches. Metadata = (column count, optional id), ids are abstract identities. Native replay drives a real Connection (to a local listener that never answers) and real PreparedStatement objects through hooks.",
+         S),
  "C15": ("DESIGN.md §5 C15",
          "One TableTablets::add_tablet step from an ARBITRARY invariant-satisfying pre-state of N tablets (N <= 4 quick, <= 6 thorough; all bounds symbolic i64) followed by tablet_for_token on an arbitrary token: list stays sorted/disjoint, exactly the overlapped tablets disappear, lookup = newest covering tablet or nothing (never stale). Unknown-replica bookkeeping (what lets maintenance be skipped): TableTablets::add_tablet and TabletsInfo::add_tablet preserve 'unresolved tablet => table flag => info flag' and never clear a flag; TabletsInfo::add_tablet routes the tablet to the table named by its TableSpec (creating it if missing) and leaves other tables untouched.",
          "Vec/slice operations are modelled as sequence operations (partition_point on partitioned slices, drain, insert, get); the hashbrown map of TabletsInfo is an association list over concrete table names (2 existing tables + 1 new). perform_maintenance itself (HashSet/HashMap of Arc<Node>), per-DC restriction and RawTablet::from_custom_payload validation are NOT decided.",
@@ -101,7 +104,7 @@ def manifest():
         "engines": [
             {"name": "K", "path": "/verif/kani + /verif/vlib/kanirun.py", "serves_properties": sorted(CLAIMED),
              "kind_free_text": "Kani 0.68 proof harnesses (CBMC 6.11 + CaDiCaL) over the real crates via path dependencies; recompiled from /repo on every run"},
-            {"name": "S", "path": "/verif/mir2smt", "serves_properties": [p for p in sorted(CLAIMED) if p in ("C01", "C02", "C03", "C06", "C09", "C11", "C15", "C16", "C20")],
+            {"name": "S", "path": "/verif/mir2smt", "serves_properties": [p for p in sorted(CLAIMED) if p in ("C01", "C02", "C03", "C04", "C06", "C09", "C11", "C14", "C15", "C16", "C20")],
              "kind_free_text": "MIR (nightly -Zunpretty=mir of the real crate) -> SMT-LIB2 translator; z3 4.8 / z3 5.1 / cvc5 portfolio"},
         ],
         "checks": checks,
@@ -109,4 +112,4 @@ def manifest():
         "notes": "Technique family: solver-based checking of the real code. exit 0 = all obligations discharged within stated bounds; exit 1 = reproducing counterexample; exit 2 = inconclusive (never reported as pass).",
     }
 
-HOOK_COMMITS = ['1dd854c', 'c81cb68', '3bca3b6', '3ff90ff', 'ace7ba7', '423595e', '1865a12', '55a0502', '6db07cc', '8989f50', 'b07dfd2', '2f1ba89']
+HOOK_COMMITS = ['1dd854c', 'c81cb68', '3bca3b6', '3ff90ff', 'ace7ba7', '423595e', '1865a12', '55a0502', '6db07cc', '8989f50', 'b07dfd2', '2f1ba89', '2f862e8', 'adaafd7', '8ddb525']
